@@ -1,5 +1,49 @@
-(** C11 -- placeholder while the proofs are built *)
-From RL Require Import Model.Decode.
-Theorem C11_placeholder : m_decode strict_opts [] = Val (Err [IncompleteFlags], []).
-Proof. reflexivity. Qed.
-Print Assumptions C11_placeholder.
+(** C11 -- Hiding then revealing an AVP with the same secret and random vector
+    returns it, directly and over the wire; identity on the other variant.
+    Proved for EVERY hash function with a 16-octet result, then instantiated with
+    the executable MD5 of Base/Md5.v (the md5 crate is modelled by it). *)
+From RL Require Import Base.Md5 Model.Decode Model.Encode Model.Hide Spec.SpecEncode Spec.SpecHide
+  Proofs.RoundTrip Proofs.Hiding Proofs.Md5Facts.
+
+Theorem C11_hide_reveal : forall (H : list N -> list N), (forall x, len (H x) = 16) ->
+  forall a secret rv lp ap, wf_avp a = true -> is_hidden a = false -> len ap = 16 ->
+  exists h, m_hide H a secret rv lp ap = Val h /\ m_reveal H h secret rv = Val (Ok a).
+Proof. exact hide_then_reveal. Qed.
+
+Theorem C11_wire : forall (H : list N -> list N), (forall x, len (H x) = 16) ->
+  (forall x, bytes_ok (H x) = true) ->
+  forall a secret rv lp ap,
+  wf_avp a = true -> is_hidden a = false -> len ap = 16 -> bytes_ok lp = true -> bytes_ok ap = true ->
+  2 + len (s_value a) + len lp <= 1008 ->
+  exists h b, m_hide H a secret rv lp ap = Val h /\ m_enc_avp h [] = Val b /\
+              m_avps b = Val ([Ok h], []) /\ m_reveal H h secret rv = Val (Ok a).
+Proof. exact hide_wire. Qed.
+
+Theorem C11_identity_on_other_variant : forall (H : list N -> list N),
+  (forall t v secret rv lp ap, m_hide H (AHidden t v) secret rv lp ap = Val (AHidden t v)) /\
+  (forall a secret rv, is_hidden a = false -> m_reveal H a secret rv = Val (Ok a)).
+Proof. intros H. split; [apply hide_hidden | apply reveal_nonhidden]. Qed.
+
+(** with MD5 *)
+Theorem C11_hide_reveal_md5 : forall a secret rv lp ap,
+  wf_avp a = true -> is_hidden a = false -> len ap = 16 ->
+  exists h, m_hide md5 a secret rv lp ap = Val h /\ m_reveal md5 h secret rv = Val (Ok a).
+Proof. exact (hide_then_reveal md5 md5_len). Qed.
+
+Theorem C11_wire_md5 : forall a secret rv lp ap,
+  wf_avp a = true -> is_hidden a = false -> len ap = 16 -> bytes_ok lp = true -> bytes_ok ap = true ->
+  2 + len (s_value a) + len lp <= 1008 ->
+  exists h b, m_hide md5 a secret rv lp ap = Val h /\ m_enc_avp h [] = Val b /\
+              m_avps b = Val ([Ok h], []) /\ m_reveal md5 h secret rv = Val (Ok a).
+Proof. exact (hide_wire md5 md5_len md5_bytes). Qed.
+
+Example C11_example :
+  omap (fun h => m_reveal md5 h [115] [1;2;3;4]) (m_hide md5 (ABytes HostName [97;98;99]) [115] [1;2;3;4] [170;187]
+     [0;1;2;3;4;5;6;7;8;9;10;11;12;13;14;15]) = Val (Val (Ok (ABytes HostName [97;98;99]))).
+Proof. vm_compute. reflexivity. Qed.
+
+Print Assumptions C11_hide_reveal.
+Print Assumptions C11_wire.
+Print Assumptions C11_identity_on_other_variant.
+Print Assumptions C11_hide_reveal_md5.
+Print Assumptions C11_wire_md5.
